@@ -107,8 +107,9 @@ zix_file_equals(ZixAllocator* const allocator,
   if (stat_a.st_dev == stat_b.st_dev && stat_a.st_ino && stat_b.st_ino &&
       stat_a.st_ino == stat_b.st_ino) {
     match = true; // Fast path: paths refer to the same file
-  } else if (stat_a.st_size == stat_b.st_size) {
-    // Slow path: files have equal size, compare contents
+  } else if (stat_a.st_size == stat_b.st_size || !stat_a.st_size ||
+             !stat_b.st_size) {
+    // Slow path: sizes may be equal (a reported zero says nothing), compare
     const uint32_t page   = zix_system_page_size();
     void* const    page_a = zix_aligned_alloc(allocator, page, page);
     void* const    page_b = zix_aligned_alloc(allocator, page, page);
